@@ -1,6 +1,6 @@
 SPECIFICATION Spec
 CONSTANTS
-  Universe = "html"
+  Universe = "htmlT"
   MaxLen = 4
 INVARIANT MachineOK
 CHECK_DEADLOCK FALSE
